@@ -349,15 +349,59 @@ theorem valueDiags_scope (s : RSchema) (vars : List RVarDef) :
             exact opaqueVars_scope vars k x.2 d hx
           | true => simp at hd; subst hd; trivial
         | inputObject fields =>
-          simp only [List.mem_flatMap] at hd
-          obtain ⟨fd, _, hx⟩ := hd
-          split at hx
-          · exact ih _ _ d hx
-          · simp at hx
+          simp only [List.mem_append, List.mem_flatMap] at hd
+          rcases hd with hd | hd
+          · unfold keyDiags at hd
+            split at hd
+            · simp at hd
+            · simp only [List.mem_singleton] at hd; subst hd; trivial
+          · obtain ⟨fd, _, hx⟩ := hd
+            split at hx
+            · exact ih _ _ d hx
+            · simp at hx
         | enum => simp at hd; subst hd; trivial
         | object _ => simp at hd; subst hd; trivial
         | interface _ => simp at hd; subst hd; trivial
         | union _ => simp at hd; subst hd; trivial
+
+/-- `keyDiags` is silent exactly when the object literal names only fields the input object defines, each once
+    (§5.6.2 Input Object Field Names, §5.6.3 Input Object Field Uniqueness) -/
+theorem keyDiags_iff (fields : List InDef) (kvs : List (String × RVal)) :
+    keyDiags fields kvs = [] ↔ (kvs.map (·.1)).Nodup ∧ ∀ kv ∈ kvs, ∃ fd, fields.find? (·.name == kv.1) = some fd := by
+  unfold keyDiags
+  have hfind : ∀ kv : String × RVal, (fields.any (·.name == kv.1) = true) ↔ ∃ fd, fields.find? (·.name == kv.1) = some fd := by
+    intro kv
+    constructor
+    · intro h
+      cases hf : fields.find? (·.name == kv.1) with
+      | some fd => exact ⟨fd, rfl⟩
+      | none =>
+        rw [List.find?_eq_none] at hf
+        obtain ⟨x, hx, hxe⟩ := List.any_eq_true.mp h
+        exact absurd hxe (hf x hx)
+    · rintro ⟨fd, hf⟩
+      exact List.any_eq_true.mpr ⟨fd, List.mem_of_find?_eq_some hf, by simpa using List.find?_some hf⟩
+  constructor
+  · intro h
+    split at h
+    · rename_i hc
+      simp only [Bool.and_eq_true, decide_eq_true_eq, List.all_eq_true] at hc
+      exact ⟨hc.1, fun kv hkv => (hfind kv).mp (hc.2 kv hkv)⟩
+    · cases h
+  · rintro ⟨h1, h2⟩
+    have : (decide ((kvs.map (·.1)).Nodup) && kvs.all (fun kv => fields.any (·.name == kv.1))) = true := by
+      simp only [Bool.and_eq_true, decide_eq_true_eq, List.all_eq_true]
+      exact ⟨h1, fun kv hkv => (hfind kv).mpr (h2 kv hkv)⟩
+    simp [this]
+
+/-- what the value walk establishes about an object literal at an input-object position: when nothing is reported,
+    its keys are pairwise different and all defined by the input object -/
+theorem valueDiags_keys (s : RSchema) (vars : List RVarDef) (k : Nat) (ty : Ty) (fields : List InDef) (kvs : List (String × RVal))
+    (hk : s.kindForValue ty.innerNamedType = some (.inputObject fields)) (h : valueDiags s vars (k + 1) ty (.obj kvs) = []) :
+    (kvs.map (·.1)).Nodup ∧ ∀ kv ∈ kvs, ∃ fd, fields.find? (·.name == kv.1) = some fd := by
+  unfold valueDiags at h
+  simp only [hk, List.append_eq_nil_iff] at h
+  exact (keyDiags_iff fields kvs).mp h.1
 
 theorem argDiags_scope (s : RSchema) (vars : List RVarDef) (df : InDef) (a : RArg) :
     ∀ d ∈ argDiags s vars df a, RespectsScope vars d := by
